@@ -340,11 +340,11 @@ class Oracle:
         if any(x is not None for x in c.cands) and self.fresh(r["ep"]):
             self.count("observed:stream-dropped-new-epoch")
         c.cands = _dedup(new)
+        self.c19_meta_outlived(op, r["ep"], c)   # before see(): it needs to know whether the epoch is fresh
         self.see(r["ep"])
         c.e_dead = e_new
         c.max_deadline = e_new if c.max_deadline is None else max(c.max_deadline, e_new)
         c.last_store_s = self.now_s
-        self.c19_meta_outlived(op, r["ep"], c)
         self.touch_meta(c, op["meta"])
         self.count("pub-stored")
         if self.mode == "c19":
